@@ -4,6 +4,8 @@ package core
 
 import (
 	"fmt"
+	"os"
+	"path/filepath"
 	"strings"
 	"sync"
 	"testing"
@@ -66,9 +68,48 @@ func c19Count(lines []string, sub string) int {
 	return n
 }
 
+
+// c19Calibrate makes sure that the observation channel of this check (the two log lines that report the start
+// and the stop of the runOnDemand command) still works on the tree under test: one held request on an on-demand
+// path whose command leaves a marker file. If the process demonstrably ran but the log lines were not seen, the
+// wording of the log changed; the check then cannot count starts/stops and says so (inconclusive, exit 2) instead
+// of reporting a violation.
+func c19Calibrate(t *testing.T) {
+	dir := t.TempDir()
+	marker := filepath.Join(dir, "started")
+	yaml := fmt.Sprintf("  p:\n    runOnDemand: sh -c 'echo x >> %s; exec sleep 3600'\n    runOnDemandStartTimeout: 20s\n    runOnDemandCloseAfter: 20s\n", marker)
+	confs, err := vcPathConfs(yaml)
+	if err != nil {
+		t.Fatalf("VERIF-INCONCLUSIVE: calibration configuration rejected: %v", err)
+	}
+	pm := vcNewPM(confs, vcPMOpts{WithCmdPool: true})
+	go func() {
+		pm.pathManager.Describe(defs.PathDescribeReq{ //nolint:errcheck
+			AccessRequest: defs.PathAccessRequest{Name: "p", SkipAuth: true},
+		})
+	}()
+	ran := vcWaitUntil(15*time.Second, func() bool {
+		b, _ := os.ReadFile(marker)
+		return len(b) > 0
+	})
+	sawStart := vcWaitUntil(2*time.Second, func() bool {
+		return c19Count(pm.Log.Snapshot(), "runOnDemand command started") == 1
+	})
+	pm.Close()
+	sawStop := vcWaitUntil(2*time.Second, func() bool {
+		return c19Count(pm.Log.Snapshot(), "runOnDemand command stopped") == 1
+	})
+	if ran && (!sawStart || !sawStop) {
+		fmt.Printf("VERIF-INCONCLUSIVE: the runOnDemand command ran but the log lines this check counts (\"runOnDemand command started/stopped\") were not seen (start=%v stop=%v): log wording changed? log: %s\n",
+			sawStart, sawStop, strings.Join(c19Tail(pm.Log.Snapshot()), " | "))
+		t.Fatalf("VERIF-INCONCLUSIVE: observation channel of C19 unavailable")
+	}
+}
+
 func TestVerifC19OnDemand(t *testing.T) {
 	rec := kit.R("TestVerifC19OnDemand")
 	t.Cleanup(kit.Flush)
+	c19Calibrate(t)
 
 	rapid.Check(t, func(t *rapid.T) {
 		confs, err := vcPathConfs(c19PathYAML())
